@@ -62,6 +62,13 @@ partial def loop (h : IO.FS.Stream) (g : G) : IO Unit := do
       | .cyclic => IO.println "err topological sort failure"
       | .panic => IO.println "panic")
     loop h g
+  | "reswf" :: its =>
+    let pl := fun (s : String) => if s = "" then [] else (s.splitOn ",").filterMap (·.toNat?)
+    let items := its.filterMap fun s => match s.splitOn ":" with
+      | [n, p, r] => some (⟨n.toNat!, pl p, pl r⟩ : RItem)
+      | _ => none
+    IO.println s!"{wfItemsCheck items}"
+    loop h g
   | _ => IO.println "bad-op"; loop h g
 
 def main : IO Unit := do loop (← IO.getStdin) G.empty
